@@ -6,6 +6,14 @@ B->A.  Every request Deferred gets a unique id and a recording callback; every n
 is recorded; exceptions escaping `dataReceived` (the "can never be entered" assertions, the
 `enableRemote must return True` assertion, AlreadyCalledError...) are events.
 
+Re-entrant applications: a request may carry a follow-up flag (part of the action label, so
+histories stay hashable and replayable); when its Deferred fires with True or OptionRefused the
+recording callback synchronously issues ONE further request from inside the callback/errback -
+`chain` (same side of the same option: the opposite request after success, a retry after a refusal),
+`persp` (the other side, us/him, of the same option) or `opt` (same request, next option).  Follow-up
+requests are monitored like any other (fire exactly once, agreement, no escaping exception); an
+exception raised by the follow-up call itself is reported (`exception-in-followup-request`).
+
 Policies (each satisfies "accepts the options it itself requests"):
   all        accept every enable request;
   own        accept option o on perspective p iff this side has itself requested will(o)/do(o) before;
@@ -37,9 +45,11 @@ from twisted.conch import telnet
 LEVEL = "exploration"
 ENGINE = "E1-explore"
 TECHNIQUE = "runtime monitoring: exhaustive state-graph search over two real Telnet objects with a quiescence oracle (Deferreds fired once, both sides agree, bounded drain)"
-RULE = ("for each of the 9 policy pairs: every interleaving of up to R requests (quick R=4, thorough R=6; "
-        "will/wont/do/dont x 2 options x 2 sides) with every delivery order of in-flight messages, "
-        "explored exhaustively with state hashing; plus random runs of 200 actions over 3 options with "
+RULE = ("for each of the 6 unordered policy pairs (the world is symmetric in A/B): every interleaving of up to R "
+        "requests (quick R=4, thorough R=6; will/wont/do/dont x 2 options x 2 sides) with every delivery order "
+        "of in-flight messages, and again with R=3 (thorough 4) requests of which one may carry a re-entrant "
+        "follow-up flag (chain/persp/opt; flagged requests only for the first option - options are "
+        "interchangeable), explored exhaustively with state hashing; plus random runs of 200 actions over 3 options with "
         "byte-level segmentation.  A case is distinct by (policy pair, reached state) or by the random "
         "history; non-trivial = at least one request was made.")
 ASSUMPTIONS = ["trusted base: cloning (fresh Telnet + deep copy of its instance attributes) reproduces the object "
@@ -53,6 +63,9 @@ READY = True
 
 POLICIES = ("all", "own", "solicited")
 REQS = ("will", "wont", "do", "dont")
+FLIP = {"will": "wont", "wont": "will", "do": "dont", "dont": "do"}
+PERSP = {"will": "do", "do": "will", "wont": "dont", "dont": "wont"}
+FOLLOW = ("chain", "persp", "opt")
 
 
 class Wire:
@@ -99,6 +112,8 @@ class Side:
         self.results = {}  # request id -> [result names]
         self.callbacks = []
         self.nreq = 0
+        self.followup_errors = []
+        self.options = ()
 
     def accept(self, persp, option):
         if self.policy == "all":
@@ -108,19 +123,34 @@ class Side:
         return (persp, option) in self.fired_now
 
     def fired(self, result, rid):
-        verb, option = self.pending.pop(rid, (None, None))
+        verb, option, follow = self.pending.pop(rid, (None, None, None))
         name = "True" if result is True else getattr(getattr(result, "type", None), "__name__", repr(result))
         self.results.setdefault(rid, []).append(name)
         if verb in ("will", "do") and result is True:
             self.fired_now.add(("us" if verb == "will" else "him", option))
+        if follow and name in ("True", "OptionRefused"):
+            # re-entrant application: a follow-up request issued synchronously from the callback /
+            # errback of the request that just completed (monitored like any other request)
+            try:
+                self.request(*self.followup(verb, option, follow, name))
+            except Exception as e:  # noqa: BLE001 - would otherwise vanish inside the Deferred
+                self.followup_errors.append("%s: %s" % (type(e).__name__, str(e)[:150]))
         return None
 
-    def request(self, verb, option):
+    def followup(self, verb, option, follow, outcome):
+        if follow == "chain":  # same side of the same option: undo after success, retry after refusal
+            return (FLIP[verb] if outcome == "True" else verb), option
+        if follow == "persp":  # the other side (us/him) of the same option
+            return PERSP[verb], option
+        opts = [bytes([o]) for o in self.options]  # "opt": same request for the next option
+        return verb, opts[(opts.index(option) + 1) % len(opts)]
+
+    def request(self, verb, option, follow=None):
         rid = "%s%d" % (self.name, self.nreq)
         self.nreq += 1
         if verb in ("will", "do"):
             self.requested.add(("us" if verb == "will" else "him", option))
-        self.pending[rid] = (verb, option)
+        self.pending[rid] = (verb, option, follow)
         d = getattr(self.t, verb)(option)
         d.addBoth(self.fired, rid)
         return rid
@@ -135,6 +165,8 @@ class Side:
         n.pending = dict(self.pending)
         n.results = {k: list(v) for k, v in self.results.items()}
         n.callbacks = list(self.callbacks)
+        n.followup_errors = list(self.followup_errors)
+        n.options = self.options
         n.wire = Wire()
         n.wire.q, n.wire.total = list(self.wire.q), self.wire.total
         memo[id(self.wire)] = n.wire
@@ -151,13 +183,16 @@ class Side:
 
 
 class World:
-    def __init__(self, cfg, options, max_requests):
+    def __init__(self, cfg, options, max_requests, max_follow=0):
+        if isinstance(max_requests, (tuple, list)):  # (requests, of which with a follow-up flag)
+            max_requests, max_follow = max_requests
         self.cfg = cfg
         self.options = options
         self.a = Side("A", cfg[0])
         self.b = Side("B", cfg[1])
+        self.a.options = self.b.options = tuple(options)
         self.left = max_requests
-        self.made = 0
+        self.fleft = max_follow  # how many of the requests may still carry a follow-up flag
         self.problems = []  # (key, what, detail)
         self.delivered = 0
         self.dead = False
@@ -186,6 +221,10 @@ class World:
                 for o in self.options:
                     for v in REQS:
                         acts.append((v, s, o))
+                        # options are interchangeable: flagged requests only for the first one
+                        if self.fleft > 0 and o == self.options[0]:
+                            for f in FOLLOW:
+                                acts.append((v, s, o, f))
         return acts
 
     def _guard(self, where, fn, *a):
@@ -208,13 +247,19 @@ class World:
         if act[0] == "deliver":
             self.deliver(act[1])
         else:
-            v, s, o = act
+            v, s, o = act[:3]
+            follow = act[3] if len(act) > 3 else None
             side = self.a if s == "A" else self.b
             self.left -= 1
-            self.made += 1
+            if follow:
+                self.fleft -= 1
             side.fired_now.clear()
-            self._guard("request", side.request, v, bytes([o]))
+            self._guard("request", side.request, v, bytes([o]), follow)
         for side in self.sides():
+            if side.followup_errors:
+                self.problems.append(("exception-in-followup-request", "a request issued from a request Deferred's callback raised",
+                                      list(side.followup_errors)))
+                self.dead = True
             for rid, res in side.results.items():
                 if len(res) > 1:
                     self.problems.append(("request-deferred-fired-twice", "a request Deferred fired more than once", {rid: res}))
@@ -222,11 +267,12 @@ class World:
     def pstate(self):
         opts = tuple((self.a.optstate(bytes([o])), self.b.optstate(bytes([o]))) for o in self.options)
         pol = tuple((tuple(sorted(s.requested)) if s.policy == "own" else ()) for s in self.sides())
-        pend = tuple(tuple(sorted(s.pending.values())) for s in self.sides())
-        return (opts, tuple(self.a.wire.q), tuple(self.b.wire.q), pol, pend, self.dead)
+        pend = tuple(tuple(sorted(map(repr, s.pending.values()))) for s in self.sides())
+        return (opts, tuple(self.a.wire.q), tuple(self.b.wire.q), pol, pend, self.dead, self.fleft)
 
     def drain_and_check(self, ctx):
         """Mutates the world: deliver everything, then evaluate the quiescence oracle."""
+        self.made = self.a.nreq + self.b.nreq  # follow-ups included
         bound = 4 * (self.made + 1) * len(self.options)
         n = 0
         while (self.a.wire.q or self.b.wire.q) and not self.dead:
@@ -244,9 +290,9 @@ class World:
             ctx.count("quiescence_checks")
             ctx.maxi("drain_deliveries", n)
         for s in self.sides():
-            for rid, (verb, option) in sorted(s.pending.items()):
+            for rid, (verb, option, follow) in sorted(s.pending.items()):
                 self.problems.append(("request-deferred-never-fired", "a request Deferred has not fired although no message is in flight",
-                                      {"request": [rid, verb, option], "option_state": s.optstate(option)}))
+                                      {"request": [rid, verb, option, follow], "option_state": s.optstate(option)}))
             for rid, res in s.results.items():
                 if len(res) == 1:
                     if ctx is not None:
@@ -350,7 +396,7 @@ def explore(ctx, cfg, options, max_requests, owns_first=None):
                 ctx.count("re_expanded_with_more_requests_left")
             tick += 1
             heapq.heappush(heap, (-w2.left, tick, w2, h2))
-    ctx.count("states_" + "-".join(cfg), nstates)
+    ctx.count("states_%s_R%s" % ("-".join(cfg), "+".join(map(str, max_requests)) if isinstance(max_requests, tuple) else max_requests), nstates)
     return nstates
 
 
@@ -358,7 +404,7 @@ def random_run(ctx, i):
     rng = ctx.case_rng("rand", i)
     cfg = (rng.choice(POLICIES), rng.choice(POLICIES))
     options = (1, 3, 31)
-    w = World(cfg, options, 10 ** 9)
+    w = World(cfg, options, (10 ** 9, 10 ** 9))
     hist = []
     partial = {"A": b"", "B": b""}  # bytes of the message currently being delivered in segments
     p_req = rng.choice((0.2, 0.4, 0.7))
@@ -379,6 +425,8 @@ def random_run(ctx, i):
             ctx.count("messages_delivered" if not partial[nm] else "partial_segments")
         else:
             act = (rng.choice(REQS), rng.choice("AB"), rng.choice(options))
+            if rng.random() < 0.3:
+                act += (rng.choice(FOLLOW),)
             hist.append(act)
             w.apply(act)
             ctx.count("requests_issued")
@@ -392,21 +440,24 @@ def random_run(ctx, i):
     ctx.distinct(("rand", cfg, tuple(hist)))
     ctx.count("random_runs")
     if w.problems:
-        report(ctx, cfg, options, 10 ** 9, hist, w.problems, confirm=False)
+        report(ctx, cfg, options, (10 ** 9, 10 ** 9), hist, w.problems, confirm=False)
     if i < 2:
         ctx.sample({"policies": cfg, "history_head": hist[:25], "final": {o: [w.a.optstate(bytes([o])), w.b.optstate(bytes([o]))] for o in options},
                     "results": {"A": dict(list(w.a.results.items())[:8]), "B": dict(list(w.b.results.items())[:8])}})
 
 
 def run(ctx):
-    R = 4 if ctx.quick else 6
+    # (requests, of which may carry a follow-up flag): the plain alphabet deeper, the re-entrant one shallower
+    budgets = [(4, 0), (3, 1)] if ctx.quick else [(6, 0), (4, 1)]
     # the world is symmetric in A/B: 6 unordered policy pairs
     cfgs = [(pa, pb) for i, pa in enumerate(POLICIES) for pb in POLICIES[i:]]
-    for k, cfg in enumerate(cfgs):
+    jobs = [(cfg, b) for b in budgets for cfg in cfgs]
+    for k, (cfg, budget) in enumerate(jobs):
         if not ctx.owns(k):
             continue
         ctx.seen("policy_pairs", "-".join(cfg))
-        explore(ctx, cfg, (1, 3), R)
+        ctx.seen("budgets", "requests=%d,with-follow-up=%d" % budget)
+        explore(ctx, cfg, (1, 3), budget)
     ctx.exhaustive = True
     for i in ctx.cases(600, 40000):
         random_run(ctx, i)
